@@ -624,7 +624,14 @@ fn judge_common(inet: &Internet, limits: (u8, u8), run: &Run, l: &mut Local, wit
                 l.violation("unknown-address-contacted", &format!("{} is neither a server of the simulated internet nor carried by an injected record", e.ip), wit);
                 continue;
             }
-            for (si, r) in carriers {
+            // the same address may be injected in several sections (pairs): attribute the contact
+            // once, to the first carrier in section order answer < authority < additional whose
+            // owner lies outside the hostile zone (else to the first carrier)
+            let pick = carriers
+                .iter()
+                .position(|(_, r)| !hostile.as_ref().map(|h| h.zone_of(&r.name)).unwrap_or(false))
+                .unwrap_or(0);
+            for (si, r) in carriers.into_iter().skip(pick).take(1) {
                 let owner_inside = hostile.as_ref().map(|h| h.zone_of(&r.name)).unwrap_or(false);
                 // glue of an attacker host that only out-of-bailiwick NS records point to
                 let ns_outside = [&inet.injection.answers, &inet.injection.authorities, &inet.injection.additionals]
@@ -1064,7 +1071,7 @@ fn main() {
          l.t.: in-zone+glue, no-glue, sibling-tld, sibling-leaf, parent-zone; v.o.: in-zone+glue, sibling-tld, sibling-leaf; 120 graphs incl. all mutual glueless cycles) x 1 (quick) / 1-2 (thorough) servers per zone \
          x 8 queries x limits {(4,4),(8,8),(24,24)}, honest; (B) every graph x hostile zone in {t., o., l.t., v.o.} (all its servers) x injection kind (9: victim A, victim-zone NS+glue, victim-parent NS+glue, root NS+glue, \
          CNAME->victim + victim A, in-bailiwick A at a denied answer address, in-bailiwick NS + glue at a denied server address, sibling A, victim NS + victim glue) x section {answer, authority, additional} added to EVERY response \
-         x main query, followed on the same recursor by 3-4 follow-up queries for names outside the hostile subtree; thorough adds all unordered pairs of injections on the plain graph and on every graph that differs from it in one NS style; \
+         x main query, followed on the same recursor by 3-4 follow-up queries for names outside the hostile subtree; thorough adds all unordered pairs of injections on the plain graph and on every graph that differs from it in at most two zones' NS styles; \
          (C) lame kinds {REFUSED, upward referral, self referral, empty NOERROR, timeout} x zone x {1 server, 2 servers both lame, 2 servers first lame}; \
          (D) CNAME chains 1..70 (in-zone / cross-zone, server chases in-zone or not), CNAME loops 1..3, NS-for-NS chains 1..30, glueless cycles 1..8 (1 NS name) / 1..6 (2 NS names), delegation depth 1..40, each x limits; \
          (E) stub CachingClient: CNAME chains 1..20, loops 1..3, 1-2 CNAMEs per response, preserve_intermediates on/off. \
@@ -1187,7 +1194,7 @@ fn main() {
                 jobs.push((ri, vec![(k, s)]));
             }
         }
-        if thorough && d.spec.nserv == 1 && d.spec.style.iter().sum::<usize>() <= 1 {
+        if thorough && d.spec.nserv == 1 && d.spec.style.iter().filter(|x| **x != 0).count() <= 2 {
             let all: Vec<(usize, usize)> = (0..KINDS.len()).flat_map(|k| (0..SECTIONS.len()).map(move |s| (k, s))).collect();
             for a in 0..all.len() {
                 for b in a + 1..all.len() {
